@@ -88,3 +88,10 @@ CORPUS += [
 CORPUS += [
     M("device-authenticate-timeout-escapes", "msmart/base_device.py", "        except (ProtocolError, TimeoutError) as e:\n            raise AuthenticationError(e) from e", "        except ProtocolError as e:\n            raise AuthenticationError(e) from e"),
 ]
+CORPUS += [
+    M("error-code-test-inverted", C, "        if response_code == 0:\n            return body[\"result\"]", "        if response_code != 0:\n            return body[\"result\"]"),
+    M("status-check-dropped", C, "                    r.raise_for_status()\n", ""),
+    M("login-skipped-without-session", C, "        if self._session and not force:\n            return\n\n        # Get a login ID if we don't have one\n        if self._login_id is None:\n            self._login_id = await self._get_login_id()\n\n        # Login and store the session",
+      "        if not self._session and not force:\n            return\n\n        # Get a login ID if we don't have one\n        if self._login_id is None:\n            self._login_id = await self._get_login_id()\n\n        # Login and store the session"),
+    M("device-authenticate-not-awaited", D, "                await dev.authenticate(token, key)\n                return True", "                dev.authenticate(token, key)\n                return True"),
+]
